@@ -19,7 +19,7 @@ BUDGET = {"quick": {"runs": 1500, "wall": 80}, "thorough": {"runs": 60000, "wall
 SHRINK_LISTS = ("ops",)
 PROBES = {"C14": ["second-solve", "solve-at-stale-clock", "solve-after-jump", "solve-after-syscall", "ltv", "lti",
                   "ns=1", "batch>1", "T=1", "u:none", "u:zeros", "u:random", "u:prev", "two-lqr-share-system",
-                  "mpc-linear", "mpc-nonlinear", "unstable-A", "cond>1e4"]}
+                  "mpc-linear", "mpc-nonlinear", "nls-time-dependent", "mpc-nonmonotone", "unstable-A", "cond>1e4"]}
 import os
 TS = float(os.environ.get("PPSIM_TOLSCALE", "1"))
 TOL_FEAS = 1e-11 * TS       # relative
@@ -39,7 +39,8 @@ def generate(seed, tier, prop="C14"):
         B, T, ns, nc = 1, min(T, 8), min(ns, 4), min(nc, 3)
     cfg = {"kind": kind, "ns": ns, "nc": nc, "T": T, "B": B, "N": T + r.choice([0, 0, 1, 3]),
            "rho": r.choice([0.5, 0.9, 1.0, 1.3]), "logcond": r.choice([0, 1, 2, 4, 6]), "c1": r.random() < 0.7,
-           "Qtv": r.random() < 0.5, "two": r.random() < 0.25}
+           "Qtv": r.random() < 0.5, "two": r.random() < 0.25, "h": r.choice([0.2, 0.2, 1.0, 2.5]),
+           "a": r.choice([0.0, 0.0, 0.5, 0.9])}
     ro = rng.stream(seed, "ops")
     ops = []
     n = ro.randint(1, 8 if tier == "thorough" else 6)
@@ -71,8 +72,8 @@ def simplify(plan):
     c = plan["config"]
     cands = []
     for k, v in (("B", 1), ("T", 2), ("T", 1), ("ns", 1), ("ns", 2), ("nc", 1), ("logcond", 0), ("rho", 0.5),
-                 ("c1", False), ("Qtv", False), ("two", False)):
-        if c[k] != v and not (k in ("T",) and c["kind"] == "LTV" and v > c["N"]):
+                 ("c1", False), ("Qtv", False), ("two", False), ("a", 0.0), ("h", 0.2)):
+        if c.get(k) != v and not (k in ("T",) and c["kind"] == "LTV" and v > c["N"]):
             cc = dict(c, **{k: v})
             if k == "T":
                 cc["N"] = max(v, 1)
@@ -86,13 +87,20 @@ def simplify(plan):
 
 
 class SmoothNLS(pp.module.NLS):
-    """Time-invariant smooth system x' = x + h (tanh(x W1^T) W2^T + u W3^T), y = x."""
-    def __init__(self, W1, W2, W3):
+    """Smooth system x' = x + h (1 + a sin(0.5 t)) (tanh(x W1^T) W2^T + u W3^T), y = x; a = 0 is time-invariant.
+    The horizon index is the time: LQR linearises at t = 0..T-1, so step k of a solve is f(., ., k)."""
+    def __init__(self, W1, W2, W3, h=0.2, a=0.0):
         super().__init__()
-        self.W1, self.W2, self.W3 = W1, W2, W3
+        self.W1, self.W2, self.W3, self.h, self.a = W1, W2, W3, h, a
+
+    def gain(self, t):
+        if t is None or self.a == 0.0:
+            return self.h
+        tt = torch.as_tensor(t).to(self.W1.dtype).reshape(-1)[0]
+        return self.h * (1 + self.a * torch.sin(0.5 * tt))
 
     def state_transition(self, x, u, t=None):
-        return x + 0.2 * (torch.tanh(x @ self.W1.mT) @ self.W2.mT + u @ self.W3.mT)
+        return x + self.gain(t) * (torch.tanh(x @ self.W1.mT) @ self.W2.mT + u @ self.W3.mT)
 
     def observation(self, x, u, t=None):
         return x
@@ -116,7 +124,9 @@ def execute(plan, prop, out, tr):
     if kind == "NLS":
         W1 = rng.randn(s, ("W1",), (ns, ns), dt, 0.6); W2 = rng.randn(s, ("W2",), (ns, ns), dt, 0.6)
         W3 = rng.randn(s, ("W3",), (ns, nc), dt)
-        sysm = SmoothNLS(W1, W2, W3)
+        sysm = SmoothNLS(W1, W2, W3, c.get("h", 0.2), c.get("a", 0.0))
+        if c.get("a", 0.0):
+            out.probe("nls-time-dependent")
         out.probe("mpc-nonlinear", 0)
     else:
         st = (N,) if kind == "LTV" else ()
@@ -242,7 +252,7 @@ def execute(plan, prop, out, tr):
             scale = 1 + np.abs(X[b]).max()
             if kind == "NLS":
                 with torch.no_grad():
-                    nxt = sysm.state_transition(x[b:b + 1, :-1].squeeze(0), u[b], None)
+                    nxt = torch.stack([sysm.state_transition(x[b, k_], u[b, k_], torch.tensor(k_)) for k_ in range(T)])
                 err = np.abs(npd(nxt) - X[b, 1:]).max()
             else:
                 As, Bs, cs = horizon_mats(b)
